@@ -634,3 +634,15 @@ Theorem legacy_binary_is_numpy_broadcasting :
                              (flat (PNode ts)) (tile (copies (PNode ts) u) (flat u)).
 Proof. exact @legacy2_is_numpy_broadcasting. Qed.
 Print Assumptions legacy_binary_is_numpy_broadcasting.
+
+(* Legacy tensor / discretized wrappers (binary ufuncs, sum / prod / min / max)
+   after /repo commit 5a7f53f: NumPy's tuple form out=(o,) is the bare form
+   out=o, which is the NumPy call with that out (hence written and returned by
+   tensor_out_written_and_returned); the helper's text and its use in every
+   wrapper are pinned by the translator (gen_out_tuple_forms). *)
+Theorem legacy_out_tuple_form_is_bare_form :
+  forall (T : Type) (cast : dt -> dt -> T -> T) (V : variant) (NP : @npsem T) (st : @store T) (sp : tspace)
+         (m : meth) (ins : list (@operand T)) (kw : kwargs) (o : option (@operand T)),
+  legacy_tens_call cast V NP st sp m ins kw (LTuple [o]) = legacy_tens_call cast V NP st sp m ins kw (LOne o)
+  /\ legacy_tens_call cast V NP st sp m ins kw (LOne o) = tens_ufunc cast V NP st sp 1 m ins kw [o].
+Proof. exact @legacy_out_tuple_form. Qed.
